@@ -1080,8 +1080,8 @@ fn main() {
     let mut rng = Rng::new(args.seed);
     let pool = build_pool(&mut rng, args.thorough);
 
-    let (n_daemon, n_fb, n_cmp5, n_cmp6, n_cmp_l) = if args.thorough { (1500, 1500, 36, 20, 3) } else { (330, 330, 4, 2, 0) };
-    let mut budget: i64 = if args.thorough { 30 } else { 3 };
+    let (n_daemon, n_fb, n_cmp5, n_cmp6, n_cmp_l) = if args.thorough { (1200, 1200, 24, 12, 2) } else { (330, 330, 4, 2, 0) };
+    let mut budget: i64 = if args.thorough { 20 } else { 3 };
     let mut cases: Vec<Case> = vec![];
     for i in 0..n_daemon {
         cases.push(gen_daemon_case(&mut rng, i % 5 == 4));
